@@ -205,6 +205,15 @@ class Live:
     def coll(self, cid):
         return self.colls.get(cid)
 
+    def linked_array(self, slot, shape):
+        """User-owned arrays that boundary values are linked to (bc.link_value); they start with equal contents."""
+        if not hasattr(self, "linked"):
+            self.linked = {}
+        key = (int(slot), tuple(shape))
+        if key not in self.linked:
+            self.linked[key] = np.full(shape, 1.0)
+        return self.linked[key]
+
     def eq(self, eid, gid):
         # One equation object per (id, boundary-condition data): boundary conditions are written per axis
         # (periodic axes must be declared "periodic"), so the constructor arguments depend on the class and
@@ -229,7 +238,8 @@ class Live:
 
     # -- what a reference needs to know about the current contents
     def snapshot(self, ids):
-        snap = {"fields": {}, "colls": {}}
+        snap = {"fields": {}, "colls": {}, "linked": {f"{k[0]}:{','.join(map(str, k[1]))}": np.array(v, copy=True)
+                                                      for k, v in getattr(self, "linked", {}).items()}}
         for i in ids:
             if i.startswith("f"):
                 snap["fields"][i] = np.array(self.field(i).data, copy=True)
@@ -263,6 +273,11 @@ class Fresh(Live):
             grid = self.grid(fs["grid"])
             self.fields[fid] = field_cls(fs["rank"])(grid, np.array(self.snap["fields"][fid], copy=True), label=field_label(fs))
         return self.fields[fid]
+
+    def linked_array(self, slot, shape):
+        key = f"{int(slot)}:{','.join(map(str, shape))}"
+        cur = self.snap.get("linked", {}).get(key)
+        return np.array(cur, copy=True) if cur is not None else np.full(shape, 1.0)
 
     def coll(self, cid):
         import pde
@@ -357,6 +372,29 @@ def perform(op, R: Live):
             out = np.zeros_like(oper(f.data, **akw))
             oper(f.data, out=out, **akw)
             return {"val": _val(out)}
+        if kind == "linked_op":
+            # an operator whose boundary value is linked to a user-owned array (bc.link_value); the value that counts is
+            # the array's CURRENT content, whatever other arrays with equal content were linked to other conditions before
+            from pde.grids.boundaries.local import ConstBCBase
+
+            fs = h["fields"][op["f"]]
+            if fs["rank"] != 0:
+                return SKIP
+            f = R.field(op["f"])
+            bcs = f.grid.get_boundary_conditions(build_bc({"value": 0.0}, h["grids"][fs["grid"]]), rank=0)
+            side = next((sd for ax in range(f.grid.num_axes) for sd in (bcs[ax].low, bcs[ax].high) if isinstance(sd, ConstBCBase)
+                         and type(sd).__name__ == "DirichletBC"), None)
+            if side is None:
+                return SKIP
+            side.link_value(R.linked_array(op["slot"], tuple(side._shape_tensor) + tuple(side._shape_boundary)))
+            if op["via"] == "ghost":
+                g = f.copy()
+                g._data_full[...] = 0  # (corner cells are never set by boundary conditions: not uninitialised memory, please)
+                g.data = f.data
+                g.set_ghost_cells(bcs)
+                return {"val": _val(g._data_full)}
+            oper = f.grid.make_operator(op["name"], bcs, backend=op["backend"])
+            return {"val": _val(oper(f.data))}
         if kind == "insert":
             fs = h["fields"][op["f"]]
             gspec = h["grids"][fs["grid"]]
